@@ -64,7 +64,13 @@ func tryReplay(w *World, fr *FuncResult, o *Obligation, rp map[string]interface{
 	}
 	names := resultNames(fn)
 	var body bytes.Buffer
-	body.WriteString("package influxql\n\nimport (\n\t\"fmt\"\n\t\"testing\"\n)\n\nfunc TestZZVerifReplay(t *testing.T) {\n")
+	imports := "\t\"fmt\"\n\t\"testing\"\n"
+	for _, d := range decls {
+		if strings.Contains(d, "time.") && !strings.Contains(imports, "\"time\"") {
+			imports += "\t\"time\"\n"
+		}
+	}
+	body.WriteString("package influxql\n\nimport (\n" + imports + ")\n\nfunc TestZZVerifReplay(t *testing.T) {\n")
 	body.WriteString("\tdefer func() {\n\t\tif r := recover(); r != nil {\n\t\t\tfmt.Println(\"REPLAY-PANIC:\", r)\n\t\t}\n\t}()\n")
 	for _, d := range decls {
 		body.WriteString(d + "\n")
@@ -225,7 +231,7 @@ func goExpr(x ast.Expr, resultNames []string) (string, bool) {
 					return &ast.ParenExpr{X: &ast.BinaryExpr{X: &ast.UnaryExpr{Op: token.NOT, X: &ast.ParenExpr{X: conv(n.Args[0])}}, Op: token.LOR, Y: &ast.ParenExpr{X: conv(n.Args[1])}}}
 				case "iff":
 					return &ast.ParenExpr{X: &ast.BinaryExpr{X: &ast.ParenExpr{X: conv(n.Args[0])}, Op: token.EQL, Y: &ast.ParenExpr{X: conv(n.Args[1])}}}
-				case "old", "fresh", "ovf", "forall", "exists", "forallint", "istype", "typeis", "smt", "ghost", "ite", "unboxF", "unboxS", "unboxB", "unboxI", "i2f":
+				case "old", "entry", "rscur", "rsin", "rslen", "content", "scat", "srune", "fresh", "ovf", "forall", "exists", "forallint", "istype", "typeis", "smt", "ghost", "ite", "unboxF", "unboxS", "unboxB", "unboxI", "i2f":
 					ok = false
 					return x
 				}
@@ -353,3 +359,110 @@ func replayLemma(w *World, fr *FuncResult, o *Obligation, rp map[string]interfac
 }
 
 var _ = ssa.GlobalDebug
+
+// probe looks up a named probe value in the model.
+func probe(o *Obligation, name string) (string, bool) {
+	for _, p := range o.Probes {
+		if p.Name == name {
+			v, ok := o.Model[p.Term]
+			if ok {
+				return smtIntToGo(v)
+			}
+		}
+	}
+	return "", false
+}
+
+func init() {
+	specialReplays["ParseDuration"] = replayParseDuration
+}
+
+// replayParseDuration: a counterexample to a loop obligation is one iteration
+// (d before, component n, unit runes). It is replayed on the real function as
+// the text "<d>ns<n><unit>" against exact big-integer arithmetic.
+func replayParseDuration(w *World, fr *FuncResult, o *Obligation, rp map[string]interface{}) (bool, string) {
+	if o.Status != "sat" || !strings.Contains(o.Name, "loop1") {
+		return false, ""
+	}
+	oldd, ok1 := probe(o, "old.d.0")
+	n, ok2 := probe(o, "n.0")
+	c1, ok3 := probe(o, "a[i-1].0")
+	c2, _ := probe(o, "ite(i >= 2, a[i-2], 0).0")
+	if !ok1 || !ok2 || !ok3 {
+		return false, "model lacks loop values"
+	}
+	r1, _ := strconv.Atoi(c1)
+	r2, _ := strconv.Atoi(c2)
+	var units []string
+	units = append(units, string(rune(r1)))
+	if r2 > 0 {
+		units = append(units, string(rune(r2))+string(rune(r1)))
+	}
+	var inputs []string
+	for _, u := range units {
+		if oldd != "0" && !strings.HasPrefix(oldd, "-") {
+			inputs = append(inputs, oldd+"ns"+n+u)
+		}
+		inputs = append(inputs, n+u)
+	}
+	var body bytes.Buffer
+	body.WriteString("package influxql\n\nimport (\n\t\"fmt\"\n\t\"math/big\"\n\t\"testing\"\n)\n\n")
+	body.WriteString(`func zzExact(s string) (*big.Int, bool) {
+	a := []rune(s)
+	sum := new(big.Int)
+	i := 0
+	for i < len(a) {
+		st := i
+		for i < len(a) && a[i] >= '0' && a[i] <= '9' {
+			i++
+		}
+		if i == st || i >= len(a) {
+			return nil, false
+		}
+		n, _ := new(big.Int).SetString(string(a[st:i]), 10)
+		c1 := rune(0)
+		if i+1 < len(a) {
+			c1 = a[i+1]
+		}
+		u := spec_unit(a[i], c1)
+		if u == 0 {
+			return nil, false
+		}
+		sum.Add(sum, n.Mul(n, big.NewInt(u)))
+		i += spec_unitlen(a[i], c1)
+	}
+	return sum, true
+}
+
+func TestZZVerifReplay(t *testing.T) {
+`)
+	body.WriteString("\tfor _, s := range []string{")
+	for i, in := range inputs {
+		if i > 0 {
+			body.WriteString(", ")
+		}
+		body.WriteString(strconv.Quote(in))
+	}
+	body.WriteString("} {\n")
+	body.WriteString(`		d, err := ParseDuration(s)
+		exact, valid := zzExact(s)
+		if !valid {
+			continue
+		}
+		fits := exact.IsInt64()
+		bad := (err == nil && (!fits || exact.Int64() != int64(d))) || (err != nil && fits)
+		fmt.Printf("REPLAY-INPUT: %q -> (%d, %v); exact sum %s\n", s, int64(d), err, exact)
+		if bad {
+			fmt.Println("REPLAY-POST: false")
+		}
+	}
+}
+`)
+	out, err := runOverlayTest(w.repoDir, body.String())
+	detail := map[string]interface{}{"inputs": inputs, "output": out, "oracle": "exact big-integer sum of components using spec_unit"}
+	if err != nil {
+		detail["error"] = err.Error()
+	}
+	b, _ := json.Marshal(detail)
+	return strings.Contains(out, "REPLAY-POST: false"), string(b)
+}
